@@ -29,5 +29,9 @@ Definition zrange (n : Z) : list Z := map Z.of_nat (seq 0 (Z.to_nat n)).
     (both round towards minus infinity, sign of the divisor). *)
 Definition py_divmod (a b : Z) : Z * Z := (a / b, a mod b).
 
+(** np.where(offset < cumsum)[0][0]: index of the first element greater than [offset] *)
+Fixpoint find_first_lt (offset : Z) (l : list Z) : Z :=
+  match l with [] => 0 | c :: r => if offset <? c then 0 else 1 + find_first_lt offset r end.
+
 Definition list_eqb (a b : list Z) : bool :=
   if list_eq_dec Z.eq_dec a b then true else false.
